@@ -62,6 +62,14 @@ def gen_reads(rng, b, cn, uniform):
             if over > 0:          # the read would run past the generated window (up to 183 reference bases per read): move it left
                 st -= over
             reads.append([st, m, rng.choice([1, 1, 2, 3])])
+    # hard-clipped records inside the copy-number-neutral region (e.g. the secondary hits `bwa mem -M` writes): the neutral depth of the
+    # sample (sam.py:_load_cn_region) and of the profile builder (profile.py:get_sam_profile_data) both count them
+    lo, hi = cn[1], cn[2]
+    if hi - lo > 40:
+        for _ in range(rng.randint(2, 10)):
+            ln = rng.randint(8, min(30, hi - lo - 4))
+            st = rng.randint(lo + 1, hi - ln - 1)
+            reads.append([st, [[5, rng.randint(3, 40)], [0, ln]], rng.choice([1, 2])])
     return reads, L // step
 
 
@@ -108,6 +116,8 @@ def write_bam(path, b, reads, rng):
                 p += n
             elif op == 2:
                 p += n
+            elif op == 5:
+                pass
             else:
                 q.append("".join(rng.choice("ACGT") for _ in range(n)))
         qs = "".join(q)
